@@ -32,6 +32,13 @@ Definition pc_epi (pc : ppc) : bool :=
   | _ => false
   end.
 
+(* no write_stream can follow while thread.halting stays true *)
+Definition pc_nowrite (pc : ppc) : bool :=
+  match pc with
+  | PTestHalt1 | PStopStream | PTestHalt2 => true
+  | pc => pc_epi pc
+  end.
+
 (* ---- main pcs *)
 (* holding manager.halting: inside close *)
 Definition m_hsec (M : mpc) : bool :=
@@ -134,7 +141,9 @@ Record pinv (s : state) (i : nat) (p : player) : Prop := {
   p_threads : mem i (sthreads s) = match ppc_ p with PNew => m_new_appended (smpc s) | pc => pc_in_threads pc end;
   p_open : popen p = match ppc_ p with PNew => m_new_opened (smpc s) | pc => pc_open pc end;
   p_home : p_alive p = true -> In i (alive_home s);
-  p_go : m_goset (smpc s) = Some i -> pgo p = true
+  p_go : m_goset (smpc s) = Some i -> pgo p = true;
+  p_after : pafter p <= 1 /\ (phalting p = false -> pafter p = 0)
+            /\ (pafter p = 1 -> pc_nowrite (ppc_ p) = true)
 }.
 
 Definition inv (s : state) : Prop :=
